@@ -14,8 +14,12 @@ vars == <<c, i>>
 If(cond, name) == IF cond THEN {name} ELSE {}
 
 Image(r) == IsConstitutionIso(r.f, r.g, r.h) /\ ParityPreserved(r.g, r.h, r.f) /\ CtPreserved(r.g, r.h, r.f)
+\* respellings go through a writer and the reader: when the text read back is not the same structure, the premise of C01
+\* ("another valid spelling of it") fails - that is a write/read failure, judged (and reported) by C02/C03, counted here
+Respelling(r) == r.act \in {"respell-random", "respell-canonical-mapped", "respell-aromatic-bonds", "respell-kekule",
+                            "respell-rdkit-random", "respell-rdkit-canonical", "respell-rdkit-kekule"}
 SameVerdict(r) ==
-  IF ~Image(r) THEN {"harness-variant-is-not-an-image:" \o r.act}     \* the driver claimed a preservation that is not one
+  IF ~Image(r) THEN (IF Respelling(r) THEN {} ELSE {"harness-variant-is-not-an-image:" \o r.act})   \* the driver claimed a preservation that is not one
   ELSE IF ~InDomainC01(r.g) THEN If((r.sg = r.sh) # (r.eq = 1), "eq-iff-same-string")
   ELSE If(r.sg # r.sh, "string-differs:" \o r.act) \cup If(r.eq # 1, "not-equal:" \o r.act) \cup If(r.heq # 1, "hash-differs:" \o r.act)
 \* a changed attribute multiset makes the molecules non-isomorphic whatever the numbering
@@ -33,10 +37,12 @@ MirrorVerdict(r) ==
   ELSE If(r.sg = r.sh, "mirror-image-same-string") \cup If(r.eq = 1, "mirror-image-equal")
 Verdict(r) == If((r.sg = r.sh) # (r.eq = 1), "eq-iff-same-string")
               \cup (CASE r.kind = "same" -> SameVerdict(r) [] r.kind = "bump" -> BumpVerdict(r) [] r.kind = "mirror" -> MirrorVerdict(r))
-OutOfDomain(r) == r.kind = "same" /\ ~InDomainC01(r.g)
+OutOfDomain(r) == r.kind = "same" /\ Image(r) /\ ~InDomainC01(r.g)
+NotASpelling(r) == r.kind = "same" /\ Respelling(r) /\ ~Image(r)
 
 Init == c \in 0..(CH-1) /\ i = c + 1
 Next == i + CH <= N /\ i' = i + CH /\ c' = c
 Report == i > N \/ (/\ (Verdict(R[i]) = {} \/ PrintT(<<"VERDICT", i, Verdict(R[i])>>))
-                    /\ (~OutOfDomain(R[i]) \/ PrintT(<<"INFO", i, "ood">>)))
+                    /\ (~OutOfDomain(R[i]) \/ PrintT(<<"INFO", i, "ood">>))
+                    /\ (~NotASpelling(R[i]) \/ PrintT(<<"INFO", i, "notspelling">>)))
 =============================================================================
